@@ -152,6 +152,9 @@ func c15Job(raw json.RawMessage) (interface{}, error) {
 		for _, e := range fr2.Errors {
 			viol("fill|"+ruleOf(e), e)
 		}
+		for _, e := range w.Audit(fr2) {
+			viol("fill|"+ruleOf(e), e)
+		}
 		out.Blocks = uint64(len(fr2.Owned))
 		if fb != 0 {
 			viol("fill|blocks-unusable", fmt.Sprintf("WRITE reports no space but the allocator still has %d free blocks (owned %d of %d data blocks)", fb, len(fr2.Owned), a.Size-L.DataStart))
